@@ -25,9 +25,10 @@ namespace Pg.Geno
 theorem C12_nested_roundtrip (d : DNA) (h : viewNorm d = true) : parse (toNested d) = some d :=
   parse_toNested d h
 
-/-- `DNA.parse(value of d.to_json(compact=True)) == d`. -/
-theorem C12_compact_roundtrip (d : DNA) (h : viewNorm d = true) : parse (toCompact d) = some d :=
-  parse_toCompact d h
+/-- `DNA.parse(value of d.to_json(compact=True)) == d`, for the compact form exactly as the code
+recurses (`toCompactDeep`: a childless node is its bare value at every depth). -/
+theorem C12_compact_roundtrip (d : DNA) (h : viewNorm d = true) : parse (toCompactDeep d) = some d :=
+  parse_toCompactDeep d h
 
 /-- The flat-number view reconstructs, together with the spec, the DNA it was exported from:
 `DNA.from_numbers(d.to_numbers(), spec) == d` for every valid `d` of every spec without custom
